@@ -136,7 +136,7 @@ PROPS["C13"] = {
     "functions": ["symbolically, all u32 pairs: interpreter::stack::Stack::evaluate_after, evaluate_older (hook H6), Sequence::enables_absolute_lock_time",
                   "natively per (shape, candidate witness, lock class): Interpreter::from_txdata (wsh / sh / bare / tr script path), Interpreter::iter_custom -> Iter::iter_next on the whole AST, inner::from_txdata script-hash and control-block checks"],
     "bounds": {"quick": "shapes as for C01 with a descriptor wrapper (B-typed, <= 4 nodes): the generator builds ~1100 interpreter tables, the quick tier decides a fixed subsample of ~400 of them (half of the shapes with lock atoms, a ninth of the others, plus the first four shapes of every (context, root fragment)); per shape every library satisfaction (both modes) plus single mutations in priority order (replace by empty, by any key's valid signature, drop, swap, replace by 1 / an invalid signature, duplicate, junk / 32 zero bytes, extra element on top or at the bottom) and hash-selected double mutations, <= 20 candidates; every class of (nLockTime, nSequence) under the interpreter's own lock predicates x final / non-final nSequence; lock values full 32 bit (symbolic)",
-               "thorough": "all tables, <= 160 candidates per shape, seed-selected shapes up to 6 nodes"},
+               "thorough": "all tables, <= 60 candidates per shape, seed-selected shapes up to 6 nodes"},
     "outside": ["witnesses that are not in the enumerated mutation set (the witness dimension is enumerated natively, not symbolic)", "real signature verification and sighash selection (Interpreter::verify_sig)", "pkh / wpkh / pk and taproot key-path spends, sh-wsh nesting", "inferred_descriptor",
                 "the claim that the interpreter consults nLockTime / nSequence only through evaluate_after / evaluate_older / enables_absolute_lock_time (read off Iter::iter_next; it is what makes one representative per lock class sufficient)"],
     "assumptions": ["the interpreter ran NATIVELY from the current tree on one representative (nLockTime, nSequence) of every lock class; the solver decided, for ALL lock values of the class, that the reference machine accepts what the interpreter accepted, that the executed path checked exactly the reported constraints, and that these satisfy the lifted policy (translation validation)",
